@@ -125,7 +125,10 @@ func (mem *Mempool) ReceiveTx(tx types.Tx) (err error) {
 		mem.wal.Write([]byte("\n"))
 	}
 
-	// reach here means the tx can be put into mempool, we just leave the original machanism untouched
+	// reach here means the tx can be put into mempool, we just leave the original machanism untouched.
+	// Entering the cache and the list is one step with respect to Update, Reap and Flush.
+	mem.Lock()
+	defer mem.Unlock()
 	if !mem.cache.Push(tx) {
 		return ErrTxInCache
 	}
